@@ -122,7 +122,7 @@ func runC08Core(c *sim.Ctx, t *testing.T) {
 	mode := c.Intn(3, "errmode")
 	pos := c.Intn(2, "position") // the failing action is the first or the second action of the walk
 	guardEmits := c.Bool("guardemits")
-	kinds := []string{"throw", "retbad", "emitbad"}
+	kinds := []string{"throw", "retbad", "emitbad", "retarr", "retfn", "retdate"}
 	cases := 0
 	for k := 0; k <= n; k++ {
 		for _, kind := range kinds {
